@@ -33,7 +33,7 @@ def scenario(rng, k, crash=None, defect=None, prior=None, stale=None):
     proj = G.base_project(rng)
     steps = prelude(rng, proj)
     defect = defect if defect is not None else rng.choice(DEFECTS)
-    prior = prior if prior is not None else rng.choice(["empty", "empty", "other", "same", "destdir"])
+    prior = prior if prior is not None else rng.choice(["empty", "empty", "other", "same", "destdir", "pkgfile"])
     stale = stale if stale is not None else (rng.random() < 0.3)
     label, how, arg = defect
     if how:
@@ -45,6 +45,10 @@ def scenario(rng, k, crash=None, defect=None, prior=None, stale=None):
     if prior == "destdir":
         steps.append({"cmd": "plant", "entries": [{"path": "cond-out/a.task.100", "kind": "dir",
                                                     "files": {"mine.txt": "pre-existing, unrecorded"}}]})
+    if prior == "pkgfile":
+        # a fault DURING the copy phase of an intact archive: a regular file sits where the package directory of //pk:b's
+        # (and //pk/sub:c's) versions has to be created - the copy cannot complete
+        steps.append({"cmd": "plant", "entries": [{"path": "cond-out/pk", "kind": "file"}]})
     if stale:
         # a valid restore (archive B) that is killed midway, leaving whatever it leaves
         steps.append({"cmd": "restore", "argv": ["restore", "../B.tar.gz"], "archive": "../B.tar.gz",
@@ -78,7 +82,7 @@ def main(tier):
     base = []
     k = 0
     for d in DEFECTS:
-        for prior in ["empty", "other", "same", "destdir"]:
+        for prior in ["empty", "other", "same", "destdir", "pkgfile"]:
             for stale in ([False, True] if (tier == "thorough" or prior == "empty") else [False]):
                 base.append(scenario(random.Random(rng.randrange(1 << 30)), k, defect=d, prior=prior, stale=stale))
                 k += 1
